@@ -483,33 +483,20 @@ theorem pbytes_of_lookup (k : Key) (n : Int) (b : Bytes)
     (h : k.params.lookup (lbl n) = some (.bytes b)) : k.pbytes n = b := by
   simp [Key.pbytes, paramBytes, h, Lk.getD]
 
-/-- the parameter list `NewKeyFromPublic` / `NewKeyFromPrivate` hand to `NewKeyEC2`, before
-    validation: x, y as `ec2Coordinate` leaves them (minimal form when oversize) -/
-def ecParamsRaw (crv : Int) (x y : Nat) (d : Option Nat) : GoMap :=
+/-- the parameter list `NewKeyFromPublic` / `NewKeyFromPrivate` hand to `NewKeyEC2`: x and y as
+    `ec2Coordinate` leaves them — `big.Int.Bytes()` (minimal length), except that a coordinate 0 is
+    `size` zero octets rather than the empty string; d is `D.Bytes()` -/
+def ecParams (crv : Int) (x y : Nat) (d : Option Nat) : GoMap :=
   let params : GoMap := [(lbl (-1), .crv crv), (lbl (-2), .bytes (ec2Coordinate x (curveSize crv))),
     (lbl (-3), .bytes (ec2Coordinate y (curveSize crv)))]
   match d with | some dv => params ++ [(lbl (-4), .bytes (natBytes dv))] | none => params
-
-/-- the parameter list of every key the constructor RETURNS: x and y at the full width of the
-    curve's field (`FillBytes`), 0 included; d in minimal form -/
-def ecParams (crv : Int) (x y : Nat) (d : Option Nat) : GoMap :=
-  let params : GoMap := [(lbl (-1), .crv crv), (lbl (-2), .bytes (fillBytes (curveSize crv) x)),
-    (lbl (-3), .bytes (fillBytes (curveSize crv) y))]
-  match d with | some dv => params ++ [(lbl (-4), .bytes (natBytes dv))] | none => params
-
-theorem ecParamsRaw_eq (c : Int) (x y : Nat) (d : Option Nat)
-    (hx : ec2Coordinate x (curveSize c) = fillBytes (curveSize c) x)
-    (hy : ec2Coordinate y (curveSize c) = fillBytes (curveSize c) y) :
-    ecParamsRaw c x y d = ecParams c x y d := by
-  unfold ecParamsRaw ecParams
-  rw [hx, hy]
 
 theorem keyFromEC_raw (bits x y : Nat) (d : Option Nat) (k : Key)
     (hk : keyFromEC bits x y d = .ok k) :
     (curveOfBits bits = 1 ∨ curveOfBits bits = 2 ∨ curveOfBits bits = 3) ∧
     k = { kty := 2,
           alg := (if curveOfBits bits = 1 then -7 else if curveOfBits bits = 2 then -35 else -36),
-          params := ecParamsRaw (curveOfBits bits) x y d } ∧
+          params := ecParams (curveOfBits bits) x y d } ∧
     k.validate .none = none := by
   unfold keyFromEC at hk
   simp only [] at hk
@@ -530,14 +517,25 @@ theorem keyFromEC_raw (bits x y : Nat) (d : Option Nat) (k : Key)
           · simp [h3]
           · simp [h1, h2, h3] at hc
 
-theorem ecParamsRaw_lookups (c : Int) (x y : Nat) (d : Option Nat) :
-    (ecParamsRaw c x y d).lookup (lbl (-1)) = some (.crv c) ∧
-    (ecParamsRaw c x y d).lookup (lbl (-2)) = some (.bytes (ec2Coordinate x (curveSize c))) ∧
-    (ecParamsRaw c x y d).lookup (lbl (-3)) = some (.bytes (ec2Coordinate y (curveSize c))) := by
-  cases d <;> simp [ecParamsRaw, lookup_cons, keyEq_lbl_lbl]
+theorem ecParams_lookups (c : Int) (x y : Nat) (d : Option Nat) :
+    (ecParams c x y d).lookup (lbl (-1)) = some (.crv c) ∧
+    (ecParams c x y d).lookup (lbl (-2)) = some (.bytes (ec2Coordinate x (curveSize c))) ∧
+    (ecParams c x y d).lookup (lbl (-3)) = some (.bytes (ec2Coordinate y (curveSize c))) ∧
+    (∀ dv, d = some dv → (ecParams c x y d).lookup (lbl (-4)) = some (.bytes (natBytes dv))) := by
+  cases d <;> simp [ecParams, lookup_cons, keyEq_lbl_lbl, lookup_nil]
+
+theorem ecParams_mem (c : Int) (x y : Nat) (d : Option Nat) :
+    (lbl (-2), GoVal.bytes (ec2Coordinate x (curveSize c))) ∈ ecParams c x y d ∧
+    (lbl (-3), GoVal.bytes (ec2Coordinate y (curveSize c))) ∈ ecParams c x y d ∧
+    (∀ dv, d = some dv → (lbl (-4), GoVal.bytes (natBytes dv)) ∈ ecParams c x y d) := by
+  cases d <;> simp [ecParams]
+
+theorem curveSize_pos_of (c : Int) (hc : c = 1 ∨ c = 2 ∨ c = 3) : 0 < curveSize c := by
+  rcases hc with h | h | h <;> rw [h] <;> decide
 
 /-- what `NewKeyFromPublic` / `NewKeyFromPrivate` return for an EC key: the curve is one of the
-    three, both coordinates fit the field and are stored at its full width -/
+    three, the parameters are `ecParams`, and both coordinates fit the field (`validate` refuses a
+    stored coordinate longer than the field) -/
 theorem keyFromEC_inv (bits x y : Nat) (d : Option Nat) (k : Key)
     (hk : keyFromEC bits x y d = .ok k) :
     (curveOfBits bits = 1 ∨ curveOfBits bits = 2 ∨ curveOfBits bits = 3) ∧
@@ -547,78 +545,83 @@ theorem keyFromEC_inv (bits x y : Nat) (d : Option Nat) (k : Key)
     k.validate .none = none ∧
     x < 256 ^ curveSize (curveOfBits bits) ∧ y < 256 ^ curveSize (curveOfBits bits) := by
   obtain ⟨hc, hkeq, hv⟩ := keyFromEC_raw bits x y d k hk
-  have hl := ecParamsRaw_lookups (curveOfBits bits) x y d
-  have hpar : k.params = ecParamsRaw (curveOfBits bits) x y d := by rw [hkeq]
+  have hl := ecParams_lookups (curveOfBits bits) x y d
+  have hpar : k.params = ecParams (curveOfBits bits) x y d := by rw [hkeq]
   have h2 : k.kty = 2 := by rw [hkeq]
   rw [← hpar] at hl
   have hcrv := crv_of_lookup k _ hl.1
   have hpx := pbytes_of_lookup k _ _ hl.2.1
-  have hpy := pbytes_of_lookup k _ _ hl.2.2
+  have hpy := pbytes_of_lookup k _ _ hl.2.2.1
   have hsz : curveSize k.crv > 0 := by
     rw [hcrv]
-    rcases hc with h | h | h <;> rw [h] <;> decide
+    exact curveSize_pos_of _ hc
   obtain ⟨_, _, _, _, _, hlen⟩ := C15.validate_ec2 k .none hv h2
   obtain ⟨hlx, hly, _⟩ := hlen hsz
   rw [hpx, hcrv] at hlx
   rw [hpy, hcrv] at hly
-  obtain ⟨hxlt, hxe⟩ := ec2Coordinate_length_le _ _ hlx
-  obtain ⟨hylt, hye⟩ := ec2Coordinate_length_le _ _ hly
-  rw [ecParamsRaw_eq _ _ _ _ hxe hye] at hkeq
-  exact ⟨hc, hkeq, hv, hxlt, hylt⟩
+  exact ⟨hc, hkeq, hv, (ec2Coordinate_length_le_iff _ _).mp hlx, (ec2Coordinate_length_le_iff _ _).mp hly⟩
 
-theorem ecParams_lookups (c : Int) (x y : Nat) (d : Option Nat) :
-    (ecParams c x y d).lookup (lbl (-1)) = some (.crv c) ∧
-    (ecParams c x y d).lookup (lbl (-2)) = some (.bytes (fillBytes (curveSize c) x)) ∧
-    (ecParams c x y d).lookup (lbl (-3)) = some (.bytes (fillBytes (curveSize c) y)) ∧
-    (∀ dv, d = some dv → (ecParams c x y d).lookup (lbl (-4)) = some (.bytes (natBytes dv))) := by
-  cases d <;> simp [ecParams, lookup_cons, keyEq_lbl_lbl, lookup_nil]
-
-theorem ecParams_mem (c : Int) (x y : Nat) (d : Option Nat) :
-    (lbl (-2), GoVal.bytes (fillBytes (curveSize c) x)) ∈ ecParams c x y d ∧
-    (lbl (-3), GoVal.bytes (fillBytes (curveSize c) y)) ∈ ecParams c x y d ∧
-    (∀ dv, d = some dv → (lbl (-4), GoVal.bytes (natBytes dv)) ∈ ecParams c x y d) := by
-  cases d <;> simp [ecParams]
-
-/-- the in-memory key of `NewKeyFromPublic` / `NewKeyFromPrivate`: x and y are `FillBytes` of
-    the coordinates at the curve's size, d is `D.Bytes()`; for every accepted x, y (0 included) -/
+/-- the in-memory key of `NewKeyFromPublic` / `NewKeyFromPrivate`: x and y are `ec2Coordinate` of
+    the coordinates — `X.Bytes()`, `Y.Bytes()`, except that 0 is `size` zero octets —, d is
+    `D.Bytes()` -/
 theorem keyFromEC_pbytes (bits x y : Nat) (d : Option Nat) (k : Key)
     (hk : keyFromEC bits x y d = .ok k) :
     k.crv = curveOfBits bits ∧
-    k.pbytes (-2) = fillBytes (curveSize (curveOfBits bits)) x ∧
-    k.pbytes (-3) = fillBytes (curveSize (curveOfBits bits)) y ∧
+    k.pbytes (-2) = ec2Coordinate x (curveSize (curveOfBits bits)) ∧
+    k.pbytes (-3) = ec2Coordinate y (curveSize (curveOfBits bits)) ∧
     (∀ dv, d = some dv → k.pbytes (-4) = natBytes dv) := by
-  obtain ⟨_, hkeq, _⟩ := keyFromEC_inv bits x y d k hk
+  obtain ⟨_, hkeq, _⟩ := keyFromEC_raw bits x y d k hk
   have hl := ecParams_lookups (curveOfBits bits) x y d
   have hpar : k.params = ecParams (curveOfBits bits) x y d := by rw [hkeq]
   rw [← hpar] at hl
   exact ⟨crv_of_lookup k _ hl.1, pbytes_of_lookup k _ _ hl.2.1, pbytes_of_lookup k _ _ hl.2.2.1,
     fun dv hd => pbytes_of_lookup k _ _ (hl.2.2.2 dv hd)⟩
 
-/-- the key the constructor returns already holds x and y at exactly the curve's byte size — for
-    EVERY coordinate value it accepts, 0 included (`big.Int.Bytes()` gave the empty string) -/
-theorem keyFromEC_fullwidth (bits x y : Nat) (d : Option Nat) (k : Key)
+/-- the same, by cases: a non-zero coordinate is held as `big.Int.Bytes()` gives it (minimal
+    length), a zero coordinate as `size` zero octets -/
+theorem keyFromEC_pbytes_cases (bits x y : Nat) (d : Option Nat) (k : Key)
     (hk : keyFromEC bits x y d = .ok k) :
-    (k.pbytes (-2)).length = curveSize (curveOfBits bits) ∧
-    (k.pbytes (-3)).length = curveSize (curveOfBits bits) := by
+    (x ≠ 0 → k.pbytes (-2) = natBytes x) ∧
+    (x = 0 → k.pbytes (-2) = List.replicate (curveSize (curveOfBits bits)) 0) ∧
+    (y ≠ 0 → k.pbytes (-3) = natBytes y) ∧
+    (y = 0 → k.pbytes (-3) = List.replicate (curveSize (curveOfBits bits)) 0) := by
   obtain ⟨_, hx, hy, _⟩ := keyFromEC_pbytes bits x y d k hk
-  rw [hx, hy, fillBytes_length, fillBytes_length]
-  exact ⟨rfl, rfl⟩
+  refine ⟨fun h => ?_, fun h => ?_, fun h => ?_, fun h => ?_⟩
+  · rw [hx, ec2Coordinate_nonzero _ _ h]
+  · rw [hx, h, ec2Coordinate_zero]
+  · rw [hy, ec2Coordinate_nonzero _ _ h]
+  · rw [hy, h, ec2Coordinate_zero]
+
+/-- THE REPAIRED DEFECT: the key the constructor returns never holds an EMPTY x or y — for every
+    coordinate value it accepts, 0 included (`big.Int.Bytes()` of 0 is the empty string, which
+    `validate` / `PublicKey()` read as "x or y missing") — and neither is longer than the field -/
+theorem keyFromEC_coord_nonempty (bits x y : Nat) (d : Option Nat) (k : Key)
+    (hk : keyFromEC bits x y d = .ok k) :
+    0 < (k.pbytes (-2)).length ∧ 0 < (k.pbytes (-3)).length ∧
+    (k.pbytes (-2)).length ≤ curveSize (curveOfBits bits) ∧
+    (k.pbytes (-3)).length ≤ curveSize (curveOfBits bits) := by
+  obtain ⟨hc, _, _, hxlt, hylt⟩ := keyFromEC_inv bits x y d k hk
+  obtain ⟨_, hx, hy, _⟩ := keyFromEC_pbytes bits x y d k hk
+  have hs := curveSize_pos_of _ hc
+  rw [hx, hy]
+  exact ⟨ec2Coordinate_length_pos _ _ hs, ec2Coordinate_length_pos _ _ hs,
+    (ec2Coordinate_length_le_iff _ _).mpr hxlt, (ec2Coordinate_length_le_iff _ _).mpr hylt⟩
 
 /-- the coordinates of the in-memory key convert back (`SetBytes`) to the numbers put in -/
 theorem keyFromEC_ecCoords (bits x y : Nat) (d : Option Nat) (k : Key)
     (hk : keyFromEC bits x y d = .ok k) :
     os2ip (k.pbytes (-2)) = x ∧ os2ip (k.pbytes (-3)) = y ∧
     (∀ dv, d = some dv → k.ecCoords = (x, y, dv)) := by
-  obtain ⟨_, _, _, hxlt, hylt⟩ := keyFromEC_inv bits x y d k hk
   obtain ⟨_, hx, hy, hd⟩ := keyFromEC_pbytes bits x y d k hk
-  have ex : os2ip (k.pbytes (-2)) = x := by rw [hx, os2ip_fillBytes _ _ hxlt]
-  have ey : os2ip (k.pbytes (-3)) = y := by rw [hy, os2ip_fillBytes _ _ hylt]
+  have ex : os2ip (k.pbytes (-2)) = x := by rw [hx, ec2Coordinate_roundtrip]
+  have ey : os2ip (k.pbytes (-3)) = y := by rw [hy, ec2Coordinate_roundtrip]
   refine ⟨ex, ey, fun dv hdv => ?_⟩
   unfold Key.ecCoords
   rw [ex, ey, hd dv hdv, os2ip_natBytes]
 
 /-- everything the serialised map of `NewKeyEC2(x, y, d)` holds for the coordinates; no
-    hypothesis on x, y beyond the constructor having accepted them -/
+    hypothesis on x, y beyond the constructor having accepted them: `MarshalCBOR` left-pads the
+    minimal form of a non-zero coordinate, and the zero coordinate is already at full width -/
 theorem ec2_marshal_lookups (bits x y : Nat) (d : Option Nat) (k : Key) (m : GoMap)
     (hk : keyFromEC bits x y d = .ok k) (hm : k.marshalMap = some m) :
     ∃ size, size = curveSize (curveOfBits bits) ∧ size ≠ 0 ∧ x < 256 ^ size ∧ y < 256 ^ size ∧
@@ -631,7 +634,7 @@ theorem ec2_marshal_lookups (bits x y : Nat) (d : Option Nat) (k : Key) (m : GoM
   have h2 : k.kty = 2 := by rw [hkeq]
   have hsz : curveSize k.crv > 0 := by
     rw [hcrv]
-    rcases hc with h | h | h <;> rw [h] <;> decide
+    exact curveSize_pos_of _ hc
   obtain ⟨base, m0, hgo, hmeq⟩ := marshalMap_ec2_inv k m hm h2 hsz
   have hmem := ecParams_mem (curveOfBits bits) x y d
   rw [← hpar] at hmem
@@ -641,9 +644,9 @@ theorem ec2_marshal_lookups (bits x y : Nat) (d : Option Nat) (k : Key) (m : GoM
   refine ⟨curveSize k.crv, by rw [hcrv], by omega, hxlt, hylt, ?_, ?_, ?_⟩
   · rw [hmeq, padXY]
     rw [lookup_ite_set_other _ _ (-3) (-2) _ (by decide), hpx, lookup_pad _ _ _ _ h0x,
-      leftPad_fillBytes]
+      leftPad_ec2Coordinate _ _ hxlt]
   · rw [hmeq, padXY]
-    rw [hpy, lookup_pad _ (-3) _ (fillBytes (curveSize k.crv) y), leftPad_fillBytes]
+    rw [hpy, lookup_pad _ (-3) _ (ec2Coordinate y (curveSize k.crv)), leftPad_ec2Coordinate _ _ hylt]
     rw [lookup_ite_set_other _ _ (-2) (-3) _ (by decide)]
     exact h0y
   · intro dv hd
@@ -763,25 +766,53 @@ theorem keyFromEC_marshal_some (bits x y : Nat) (d : Option Nat) (k : Key)
   rw [hpar]
   exact go_ecParams _ x y d base
 
+/-- THE WIRE-LEVEL FULL WIDTH (replaces the in-memory statement, which is false for small
+    non-zero coordinates — `keyFromEC_memory_not_fullwidth`): every key the constructor returns can
+    be serialised, and what `MarshalCBOR` emits under x and y is the stored parameter left-padded,
+    which is `FillBytes` of the coordinate at the curve's byte size and so has EXACTLY that size —
+    for every coordinate value, 0 included, no `0 < x` / `0 < y` -/
+theorem keyFromEC_fullwidth_wire (bits x y : Nat) (d : Option Nat) (k : Key)
+    (hk : keyFromEC bits x y d = .ok k) :
+    ∃ m, k.marshalMap = some m ∧
+      m.lookup (lbl (-2)) = some (.bytes (leftPad (curveSize (curveOfBits bits)) (k.pbytes (-2)))) ∧
+      m.lookup (lbl (-3)) = some (.bytes (leftPad (curveSize (curveOfBits bits)) (k.pbytes (-3)))) ∧
+      leftPad (curveSize (curveOfBits bits)) (k.pbytes (-2)) = fillBytes (curveSize (curveOfBits bits)) x ∧
+      leftPad (curveSize (curveOfBits bits)) (k.pbytes (-3)) = fillBytes (curveSize (curveOfBits bits)) y ∧
+      (leftPad (curveSize (curveOfBits bits)) (k.pbytes (-2))).length = curveSize (curveOfBits bits) ∧
+      (leftPad (curveSize (curveOfBits bits)) (k.pbytes (-3))).length = curveSize (curveOfBits bits) := by
+  obtain ⟨m, hm⟩ := keyFromEC_marshal_some bits x y d k hk
+  obtain ⟨size, rfl, _, hxlt, hylt, h3, h4, _⟩ := ec2_marshal_lookups bits x y d k m hk hm
+  obtain ⟨_, hx, hy, _⟩ := keyFromEC_pbytes bits x y d k hk
+  have ex := leftPad_ec2Coordinate _ _ hxlt
+  have ey := leftPad_ec2Coordinate _ _ hylt
+  rw [← hx] at ex
+  rw [← hy] at ey
+  refine ⟨m, hm, by rw [ex]; exact h3, by rw [ey]; exact h4, ex, ey, ?_, ?_⟩
+  · rw [ex, fillBytes_length]
+  · rw [ey, fillBytes_length]
+
 /-! ### the constructor accepts every coordinate that fits — non-vacuity -/
 
 theorem natBytes_one : natBytes 1 = [1] := by simp [natBytes]
 
 /-- `validate` accepts, for every operation, an EC2 key on one of the three curves whose x and y
-    have the curve's size, whose d is no longer (and present when signing), and whose algorithm is
-    the curve's -/
+    are not empty and no longer than the curve's size, whose d is no longer (and present when
+    signing), and whose algorithm is the curve's -/
 theorem validate_of_ec2 (k : Key) (c : Int) (op : KOp) (h2 : k.kty = 2) (hcrv : k.crv = c)
     (hc : c = 1 ∨ c = 2 ∨ c = 3)
-    (hx : (k.pbytes (-2)).length = curveSize c) (hy : (k.pbytes (-3)).length = curveSize c)
+    (hx0 : 0 < (k.pbytes (-2)).length) (hy0 : 0 < (k.pbytes (-3)).length)
+    (hx : (k.pbytes (-2)).length ≤ curveSize c) (hy : (k.pbytes (-3)).length ≤ curveSize c)
     (hd : (k.pbytes (-4)).length ≤ curveSize c)
     (hop : op = .sign → 0 < (k.pbytes (-4)).length)
     (halg : k.alg = (if c = 1 then -7 else if c = 2 then -35 else -36)) :
     k.validate op = none := by
   have hsign : ¬ (op = .sign ∧ (k.pbytes (-4)).length = 0) := fun h => by
     have := hop h.1; omega
+  have hxn : ¬ (k.pbytes (-2)).length = 0 := by omega
+  have hyn : ¬ (k.pbytes (-3)).length = 0 := by omega
   unfold Key.validate Key.deriveAlgorithm
-  simp only [h2, hcrv, hx, hy, halg, hsign]
-  rcases hc with h | h | h <;> subst h <;> simp [curveSize] at hd ⊢ <;> rw [if_neg (by omega)]
+  simp only [h2, hcrv, halg, hsign, hxn, hyn]
+  rcases hc with h | h | h <;> subst h <;> simp [curveSize] at hx hy hd ⊢ <;> rw [if_neg (by omega)]
 
 /-- `PublicKey()` succeeds on an EC2 key of the three curves that `validate(verify)` accepts -/
 theorem publicKey_of_ec2 (k : Key) (h2 : k.kty = 2) (hc : k.crv = 1 ∨ k.crv = 2 ∨ k.crv = 3)
@@ -790,15 +821,20 @@ theorem publicKey_of_ec2 (k : Key) (h2 : k.kty = 2) (hc : k.crv = 1 ∨ k.crv = 
   rw [hv, if_pos h2]
   rcases hc with h | h | h <;> rw [h] <;> rfl
 
-/-- `validate` accepts the full-width parameter list on the three curves, whatever x and y -/
+/-- `validate` accepts the constructor's parameter list on the three curves, for all x and y that
+    fit the field — 0 included -/
 theorem validate_ecParams (c : Int) (x y : Nat) (d : Option Nat) (hc : c = 1 ∨ c = 2 ∨ c = 3)
+    (hx : x < 256 ^ curveSize c) (hy : y < 256 ^ curveSize c)
     (hd : ∀ dv, d = some dv → dv < 256 ^ curveSize c) :
     ({ kty := 2, alg := (if c = 1 then -7 else if c = 2 then -35 else -36),
        params := ecParams c x y d } : Key).validate .none = none := by
   have hl := ecParams_lookups c x y d
-  refine validate_of_ec2 _ c .none rfl (crv_of_lookup _ _ hl.1) hc ?_ ?_ ?_ (fun h => by cases h) rfl
-  · rw [pbytes_of_lookup _ _ _ hl.2.1, fillBytes_length]
-  · rw [pbytes_of_lookup _ _ _ hl.2.2.1, fillBytes_length]
+  have hs := curveSize_pos_of c hc
+  refine validate_of_ec2 _ c .none rfl (crv_of_lookup _ _ hl.1) hc ?_ ?_ ?_ ?_ ?_ (fun h => by cases h) rfl
+  · rw [pbytes_of_lookup _ _ _ hl.2.1]; exact ec2Coordinate_length_pos _ _ hs
+  · rw [pbytes_of_lookup _ _ _ hl.2.2.1]; exact ec2Coordinate_length_pos _ _ hs
+  · rw [pbytes_of_lookup _ _ _ hl.2.1]; exact (ec2Coordinate_length_le_iff _ _).mpr hx
+  · rw [pbytes_of_lookup _ _ _ hl.2.2.1]; exact (ec2Coordinate_length_le_iff _ _).mpr hy
   · cases d with
     | none =>
       simp [Key.pbytes, ecParams, paramBytes, lookup_cons, keyEq_lbl_lbl, lookup_nil, Lk.getD]
@@ -807,7 +843,7 @@ theorem validate_ecParams (c : Int) (x y : Nat) (d : Option Nat) (hc : c = 1 ∨
       exact natBytes_length_le dv _ (hd dv rfl)
 
 /-- `NewKeyFromPublic` / `NewKeyFromPrivate` succeed for every pair of coordinates that fit the
-    field — x = 0 or y = 0 included — and return the full-width key -/
+    field — x = 0 or y = 0 included — and return the key with the parameters `ecParams` -/
 theorem keyFromEC_ok (bits x y : Nat) (d : Option Nat)
     (hc : curveOfBits bits = 1 ∨ curveOfBits bits = 2 ∨ curveOfBits bits = 3)
     (hx : x < 256 ^ curveSize (curveOfBits bits)) (hy : y < 256 ^ curveSize (curveOfBits bits))
@@ -816,11 +852,11 @@ theorem keyFromEC_ok (bits x y : Nat) (d : Option Nat)
       { kty := 2,
         alg := (if curveOfBits bits = 1 then -7 else if curveOfBits bits = 2 then -35 else -36),
         params := ecParams (curveOfBits bits) x y d } := by
-  have hv := validate_ecParams (curveOfBits bits) x y d hc hd
+  have hv := validate_ecParams (curveOfBits bits) x y d hc hx hy hd
   have hne : ¬ curveOfBits bits = 0 := by omega
   unfold keyFromEC
   simp only []
-  rw [if_neg hne, (ec2Coordinate_of_fits _ _ hx).1, (ec2Coordinate_of_fits _ _ hy).1]
+  rw [if_neg hne]
   unfold ecParams at hv ⊢
   cases d <;> (simp only [] at hv ⊢; rw [hv])
 
@@ -832,15 +868,15 @@ theorem keyFromEC_publicKey (bits x y : Nat) (d : Option Nat) (k : Key)
     k.validate .verify = none ∧ k.publicKey = none := by
   obtain ⟨hc, hkeq, hv, _, _⟩ := keyFromEC_inv bits x y d k hk
   obtain ⟨hcrv, _, _, _⟩ := keyFromEC_pbytes bits x y d k hk
-  obtain ⟨hlx, hly⟩ := keyFromEC_fullwidth bits x y d k hk
+  obtain ⟨hx0, hy0, hlx, hly⟩ := keyFromEC_coord_nonempty bits x y d k hk
   have h2 : k.kty = 2 := by rw [hkeq]
   have hsz : curveSize k.crv > 0 := by
     rw [hcrv]
-    rcases hc with h | h | h <;> rw [h] <;> decide
+    exact curveSize_pos_of _ hc
   obtain ⟨_, _, _, _, _, hlen⟩ := C15.validate_ec2 k .none hv h2
   obtain ⟨_, _, hld⟩ := hlen hsz
   rw [hcrv] at hld
-  have hver := validate_of_ec2 k (curveOfBits bits) .verify h2 hcrv hc hlx hly hld
+  have hver := validate_of_ec2 k (curveOfBits bits) .verify h2 hcrv hc hx0 hy0 hlx hly hld
     (fun h => by cases h) (by rw [hkeq])
   exact ⟨hver, publicKey_of_ec2 k h2 (by rw [hcrv]; exact hc) hver⟩
 
@@ -850,10 +886,10 @@ example : ∃ k, keyFromEC 256 1 1 (some 1) = .ok k ∧ k.signer = .ok (-7) ∧ 
     (by intro dv h; cases h; decide), ?_, ?_⟩
   · simp [Key.signer, Key.canOp, Key.privateKey, Key.algorithmOrDefault, Key.validate, Key.pbytes,
       paramBytes, Key.crv, paramInt, lookup_cons, keyEq_lbl_lbl, Lk.getD, natBytes_one,
-      curveSize, curveOfBits, fillBytes_length, Key.deriveAlgorithm, ecParams]
+      curveSize, curveOfBits, ec2Coordinate_one, Key.deriveAlgorithm, ecParams]
   · simp [Key.verifier, Key.canOp, Key.publicKey, Key.algorithmOrDefault, Key.validate, Key.pbytes,
       paramBytes, Key.crv, paramInt, lookup_cons, keyEq_lbl_lbl, Lk.getD, natBytes_one,
-      curveSize, curveOfBits, fillBytes_length, Key.deriveAlgorithm, ecParams]
+      curveSize, curveOfBits, ec2Coordinate_one, Key.deriveAlgorithm, ecParams]
 
 /-- the repaired defect, on the in-memory key: P-256 with x = 0 is accepted, x is held as 32 zero
     octets (not the empty string), and `PublicKey()` / `Verifier()` no longer fail with
@@ -863,13 +899,27 @@ example : ∃ k, keyFromEC 256 0 1 none = .ok k ∧ k.pbytes (-2) = List.replica
   refine ⟨_, keyFromEC_ok 256 0 1 none (by decide) (by decide) (by decide)
     (by intro dv h; cases h), ?_, ?_, ?_⟩
   · simp [Key.pbytes, paramBytes, lookup_cons, keyEq_lbl_lbl, Lk.getD, curveSize, curveOfBits,
-      ecParams, fillBytes_zero]
+      ecParams, ec2Coordinate_zero]
   · simp [Key.publicKey, Key.validate, Key.pbytes,
       paramBytes, Key.crv, paramInt, lookup_cons, keyEq_lbl_lbl, lookup_nil, Lk.getD,
-      curveSize, curveOfBits, fillBytes_length, Key.deriveAlgorithm, ecParams]
+      curveSize, curveOfBits, ec2Coordinate_zero, ec2Coordinate_one, Key.deriveAlgorithm, ecParams]
   · simp [Key.verifier, Key.canOp, Key.publicKey, Key.algorithmOrDefault, Key.validate, Key.pbytes,
       paramBytes, Key.crv, paramInt, lookup_cons, keyEq_lbl_lbl, lookup_nil, Lk.getD,
-      curveSize, curveOfBits, fillBytes_length, Key.deriveAlgorithm, ecParams]
+      curveSize, curveOfBits, ec2Coordinate_zero, ec2Coordinate_one, Key.deriveAlgorithm, ecParams]
+
+/-- the in-memory x and y are NOT always at the curve's byte size: P-256 with x = 1 is accepted
+    and its stored x is the single octet `[1]`, not 32 octets (`big.Int.Bytes()`; the library's
+    own tests compare the parameter with `X.Bytes()`).  The full width is a property of the
+    serialisation — `keyFromEC_fullwidth_wire`. -/
+theorem keyFromEC_memory_not_fullwidth :
+    ∃ k, keyFromEC 256 1 1 none = .ok k ∧ k.pbytes (-2) = [1] ∧
+      (k.pbytes (-2)).length ≠ curveSize (curveOfBits 256) := by
+  have hk := keyFromEC_ok 256 1 1 none (by decide) (by decide) (by decide) (by intro dv h; cases h)
+  obtain ⟨_, hx, _, _⟩ := keyFromEC_pbytes 256 1 1 none _ hk
+  rw [ec2Coordinate_one] at hx
+  refine ⟨_, hk, hx, ?_⟩
+  rw [hx]
+  decide
 
 end C14
 
